@@ -493,6 +493,18 @@ def oracle_surface(ck, rng):
                 expect(tab.shape == (n, 2) and list(tab.columns) == names, "apply-schema", f"apply ({label}) returned a {tab.shape} table with columns {tab.columns}", info)
                 cols = [dec(tab[c].to_numpy()) for c in tab.columns]
                 expect(cols == want_cols, "apply-schema", f"apply ({label}): rows belong to molecules {cols} instead of {tags}", info)
+            # as many functions as molecules (square tables), for every size: column j is function j, row i molecule i
+            fns = [lambda a: float(a.max()), lambda a: float(a.max()) + 0.25, lambda a: float(a.max()) + 0.5, lambda a: float(a.max()) + 0.75]
+            for k_ in (2, 3, 4):
+                if k_ > n:
+                    continue
+                for sub_, nm_ in ((ld.head(k_), "head"), (ld.tail(k_), "tail")):
+                    tg_ = sub_.molecules.features["tag"].to_list()
+                    tab = sub_.apply(fns[:k_], schema=[f"f{j}" for j in range(k_)])
+                    arr = tab.to_numpy()
+                    want_ = np.array([[value_of[t] + 0.25 * j for j in range(k_)] for t in tg_])
+                    expect(arr.shape == (k_, k_) and np.allclose(arr, want_, atol=1e-3), "apply-square",
+                           f"apply with {k_} functions on {k_} molecules ({nm_}): entry [i, j] is not function j of molecule i", info)
             expect(raises(lambda: ld.apply(np.max, np.min, schema=["a", "a"]), ValueError), "apply-schema", "duplicate schema names accepted", info)
             expect(raises(lambda: ld.apply(np.max, np.min, schema=["a"]), ValueError), "apply-schema", "schema shorter than the function list accepted", info)
             expect(raises(lambda: ld.apply(np.max, schema={"a": pl.Float32, "b": pl.Float32}), ValueError), "apply-schema", "dict schema longer than the function list accepted", info)
